@@ -10,12 +10,12 @@ from vt.core import Checker, lib, dense, dense_abs, DT, UNIT, fro
 RULE = ("Hypothesis draws y = c + z*z (c in {1,0.5,3}, z a Gaussian TT of ranks 1-2 rescaled to max|z| in {0.3,1,2}, so "
         "all entries of y lie in [c, c+4]), x a Gaussian TT of ranks 1-4, order 2-5, modes 1-10, and a form: x/y, s/y "
         "(s int, float, 0-d or one-element tensor), elementwise_divide(x,y,eps, preconditioner None/'c', starting "
-        "tensor None/random/one of the operands themselves, kick) with eps log-uniform in [1e-11,1e-3], elementwise_divide(scalar,y), and x/s. x and y are also multiplied by 10^{0,+-3,+-6}. The seed "
+        "tensor None/random/one of the operands themselves, kick) with eps log-uniform in [1e-11,1e-3], elementwise_divide(scalar,y), and x/s. x and y are also multiplied by 10^{0,+-3,+-6}; two families leave the 3000-entry cap: large local problems (modes 8-10, iterative local solver) and high-rank quotients (order 4-5, modes 7-8, middle rank 49-64). The seed "
         "of the internal randomness is drawn. Oracle: q has the shape of y and ||dense(q)*dense(y) - dense(x)|| <= "
         "5 tol ||x|| (tol = eps, or 1e-12 for the operators) + roundoff; x/s exact/roundoff. Non-trivial: y has a rank>1 "
         "and some mode>=3.")
 BUDGET = {"quick": 1200, "thorough": 48000}
-FLOORS = {"quick": {"form:x/y": 100, "form:s/y": 100, "form:ediv": 200, "prec:c": 80, "starting_tensor": 80, "starting_tensor_is_operand": 25, "form:x/s": 60}}
+FLOORS = {"quick": {"form:x/y": 100, "form:s/y": 100, "form:ediv": 200, "prec:c": 80, "starting_tensor": 80, "starting_tensor_is_operand": 25, "form:x/s": 60, "high_rank_quotient": 25}}
 SHRINK = {"quick": False, "thorough": True}
 ASSUMPTIONS = ["y is assembled with the library's own + and * (C03 checks those); the oracle uses the dense value of the "
                "cores actually passed", "torch.manual_seed(lib_seed) pins the internal randomness"]
@@ -40,6 +40,16 @@ def strategy_case(draw):
         case["zmax"] = 2.0
         case["big"] = True
         d = k
+    elif form in ("x/y", "s/y", "ediv") and draw(st.integers(0, 11)) == 0:
+        # quotients of high TT rank (order 4-5, modes 7-8: the middle bond of x / (1 + z*z) needs rank 49-64), which is where
+        # the rank caps the operators pass to the solver (500 / 1000) would bind if they were set lower
+        case["N"] = draw(st.sampled_from([[8, 8, 8, 8], [7, 8, 8, 7], [8, 8, 1, 8, 8], [8, 7, 7, 8], [1, 8, 8, 8, 8]]))
+        d = len(case["N"])
+        case["Rx"] = [1] + [draw(st.integers(2, 4)) for _ in range(d - 1)] + [1]
+        case["Rz"] = [1] + [2] * (d - 1) + [1]
+        case["zmax"] = 2.0
+        case["big"] = True
+        case["high_rank"] = True
     case["scale_x"] = draw(st.sampled_from([0, 0, 0, 0, -6, -3, 3, 6]))
     case["scale_y"] = draw(st.sampled_from([0, 0, 0, 0, -6, -3, 3, 6]))
     if form in ("s/y", "ediv_scalar", "x/s"):
@@ -76,6 +86,8 @@ def execute(case):
     ck.label("form:" + form, "order:%d" % d)
     if case.get("big"):
         ck.label("big_local_problems")
+    if case.get("high_rank"):
+        ck.label("high_rank_quotient")
     xc = core.make_cores({"N": N, "R": case["Rx"], "dt": "f64", "mode": "gauss", "seed": case["seed"]})
     if case.get("scale_x", 0):
         kx = case["seed"] % d
